@@ -401,6 +401,13 @@ func (b *blob) fetchRange(allData map[region]io.Writer, opts *options) error {
 	// If we fail reading from cache, fetch from remote registry again
 	if err == nil && shared {
 		if err := b.handleSharedFetch(allData, fetched, opts); err != nil {
+			// The failed copy may have advanced some writers partially. Rewind
+			// them so that the retry writes every chunk from its beginning.
+			for _, w := range allData {
+				if bw, ok := w.(*bytesWriter); ok {
+					bw.current = 0
+				}
+			}
 			return b.fetchRange(allData, opts) // retry on error
 		}
 	}
